@@ -14,6 +14,7 @@ coqproject:
 	  (cmp -s _CoqProject.new _CoqProject || mv _CoqProject.new _CoqProject); rm -f _CoqProject.new
 
 coq:
+	mkdir -p ocaml/gen build replays
 	python3 tools/leafgen.py
 	$(MAKE) coqproject
 	cd coq && coq_makefile -f _CoqProject -o Makefile.coq >/dev/null && timeout 3000 $(MAKE) -f Makefile.coq -j16
